@@ -157,7 +157,18 @@ RootsOK(r) ==
                         clear == D!DCmpAbs(disc, D!DScale(mag, -10)) >= 0
                     IN  D!DIsZero(a) \/ ~clear \/ (r.n = (IF D!DSign(disc) > 0 THEN 3 ELSE 1) /\ okroots)
       [] r.kind = "double" -> SameCoefs(c, Expand(c[1], rs)) => (r.n >= 1 => fin)
-      [] r.kind = "repeated" -> TRUE
+      [] r.kind = "repeated" ->
+           \* a cubic with one double and one simple root (exact coefficients): the discriminant is zero, and rounding may
+           \* make it look like one, two or three real roots; in every case the SIMPLE root is returned, and every returned
+           \* root lies near a true root (a double root only to about the square root of the rounding unit)
+           LET vals == {rs[i] : i \in 1..Len(rs)}
+               simple == {v \in vals : Cardinality({i \in 1..Len(rs) : D!DEq(rs[i], v)}) = 1}
+               sc == D!DAdd(MaxAbsSeq(rs, 1), D!DOne)
+               loose == D!DMul(sc, IF t = "f" THEN D!Pow2(-8) ELSE D!Pow2(-20))
+           IN  (r.fn \in {"cubic", "ncubic"} /\ SameCoefs(c, Expand(c[1], rs)) /\ Cardinality(simple) = 1 /\ ~D!DIsZero(c[1])) =>
+                  /\ r.n \in {1, 2, 3} /\ fin
+                  /\ \E j \in 1..Len(xs) : \E v \in simple : D!DWithin(xs[j], v, loose)
+                  /\ \A j \in 1..Len(xs) : \E v \in vals : D!DWithin(xs[j], v, loose)
       [] r.kind = "1real" ->
            \* p(r1) = 0 exactly and the deflated quadratic has no real root
            LET r1 == rs[1]
